@@ -377,7 +377,7 @@ impl verif::Filesystem for Fs {
                 g.log.push(Ev::Deleted(name.clone()));
                 Ok(())
             } else {
-                Err(io_err("not found"))
+                Err(io::Error::new(io::ErrorKind::NotFound, "not found"))
             }
         });
         if r.is_err() {
@@ -390,7 +390,7 @@ impl verif::Filesystem for Fs {
         let name = name_of(path);
         self.simple(|g| {
             if g.files.contains_key(&name) {
-                return Err(io_err("exists"));
+                return Err(io::Error::new(io::ErrorKind::AlreadyExists, "exists"));
             }
             g.files.insert(name.clone(), FileData::default());
             g.log.push(Ev::Created(name.clone()));
@@ -403,7 +403,7 @@ impl verif::Filesystem for Fs {
         let name = name_of(path);
         self.simple(|g| {
             if !g.files.contains_key(&name) {
-                return Err(io_err("not found"));
+                return Err(io::Error::new(io::ErrorKind::NotFound, "not found"));
             }
             g.log.push(Ev::Opened(name.clone()));
             Ok(())
@@ -1067,8 +1067,13 @@ pub fn gen_history_c10(rng: &mut Rng, tier: Tier) -> Case {
     let mut now = gen_start(rng);
     let mut hist = Vec::new();
     let mut dir = Vec::new();
+    // collision mode (one history in five): the clock mostly stands still and the id source repeats one id, so
+    // after a failure or a restart the name to be created is that of an existing member (exclusive create must
+    // fail; the file, possibly ending in a torn record, must not be appended to as if it were new)
+    let collide = rng.chance(1, 5);
+    let cid = rng.next() as u32;
     // sometimes a file left by an earlier run, possibly ending in a torn record
-    if rng.chance(1, 4) {
+    if rng.chance(1, 4) || (collide && rng.bool()) {
         let mut content = Vec::new();
         for _ in 0..rng.range(0, 3) {
             content.extend(gen_event(rng, &sep, false));
@@ -1076,11 +1081,15 @@ pub fn gen_history_c10(rng: &mut Rng, tier: Tier) -> Case {
         if rng.bool() {
             content.extend(gen_payload(rng, &sep, 10));
         }
-        let id = rng.next() as u32;
+        let id = if collide { cid } else { rng.next() as u32 };
         dir.push((ref_name(&cfg, &now, id), content));
     }
-    for _ in 0..nb {
-        let kind = *rng.pick(&[0u64, 0, 1, 1, 2, 2, 3, 4, 5, 6]);
+    for i in 0..nb {
+        let kind = if collide {
+            if i == 0 || rng.chance(3, 4) { 0 } else { *rng.pick(&[1u64, 2, 3]) }
+        } else {
+            *rng.pick(&[0u64, 0, 1, 1, 2, 2, 3, 4, 5, 6])
+        };
         now = advance(rng, roll_by, now, kind);
         let lo = if rng.chance(1, 12) { 0 } else { 1 };
         let nev = rng.range(lo, 4);
@@ -1090,15 +1099,17 @@ pub fn gen_history_c10(rng: &mut Rng, tier: Tier) -> Case {
             ev.push(gen_event(rng, &sep, ill));
         }
         let id_mod = if rng.chance(1, 6) { 2 } else { u32::MAX };
-        hist.push(Step::Batch { now, id: rng.next() as u32 % id_mod, pre: vec![], ev });
+        let id = if collide && rng.chance(4, 5) { cid } else { rng.next() as u32 % id_mod };
+        hist.push(Step::Batch { now, id, pre: vec![], ev });
         for _ in 0..rng.below(3) {
-            if rng.chance(1, 3) {
+            if rng.chance(1, 3) && !(collide && rng.chance(3, 4)) {
                 let kind = *rng.pick(&[1u64, 2, 3]);
                 now = advance(rng, roll_by, now, kind);
             }
-            hist.push(Step::Retry { now, id: rng.next() as u32 });
+            let id = if collide && rng.chance(4, 5) { cid } else { rng.next() as u32 };
+            hist.push(Step::Retry { now, id });
         }
-        if rng.chance(1, 6) {
+        if rng.chance(1, 6) || (collide && rng.chance(1, 3)) {
             hist.push(Step::Restart);
         }
     }
